@@ -4,6 +4,14 @@ import json, os, sys
 HERE = os.path.dirname(os.path.dirname(os.path.abspath(__file__)))
 
 CHECKS = {
+ 'C02': dict(level='model_checking', technique='automaton extraction by abstract interpretation of the scanner source + exhaustive product exploration against a specification DFA',
+             text='Language equality, for strings of every length over bytes 0x01-0xFF, between each of is_822_local / is_5321_local / is_5322_local (extracted from the current source as a finite transition system: integer locals concrete, pointers cursor-relative, bytes as classes that no comparison in code or spec can distinguish) and the mode\'s specification DFA written from the statement. The joint space is finite and explored completely, so there is no length bound.',
+             note='Trusts clang-14 AST, the C-subset evaluator of lib/scanex.py (a construct outside the subset stops the check with exit 2), the spec DFAs in spec/localpart.py with their listed reading choices, ASCII-range ctype semantics = C locale. The witness strings are report artefacts; nothing is executed.',
+             ref='DESIGN.md section 3 / C02, section 2.3'),
+ 'C03': dict(level='model_checking', technique='interval abstract interpretation of the UTF-8 decoder (case splitting, box subtraction against RFC 3629) + code-point-level automaton extraction of is_6531_local against the 5321 spec DFA',
+             text='O3.1: the decoder\'s accept set, computed as a finite set of byte boxes by interval abstract interpretation of utf8_decode_next/get/cont, equals RFC 3629\'s well-formed table in both directions for 0-4 available bytes. O3.2: is_6531_local read through the decoder summary equals the 5321 specification automaton with one extra symbol for a well-formed non-ASCII character, for all lengths.',
+             note='Trusts clang-14 AST, lib/decoder_ai.py and lib/scanex.py evaluators, spec/localpart.py. Assumes end - start <= INT_MAX. The one-symbol abstraction of non-ASCII characters is checked (no comparison with a constant above 0x7f in the scanner).',
+             ref='DESIGN.md section 3 / C03, section 2.3 (6, 7)'),
  'C08': dict(level='other', technique='switch-arm table extraction + path summaries over the AST (3 backends)',
              text='Complete for the statement: every class has exactly one arm testing exactly its own single-bit constant, the switch is reached only for rc > 0, and the tld_check gate precedes every TLD-related call; decided on all paths of eav_is_email/eav_init in all three backends and of the six gate sites. The 2^11 masks collapse to 9 single-bit tests, so no enumeration of inputs is needed.',
              note='Trusts clang-14 AST, Engine A path enumeration (lib/cfgpaths.py). Not decided here: that the class handed to the switch is the right one (C07/C09). idn and idnkit backends are parsed against declaration-only stub headers.',
